@@ -248,6 +248,25 @@ def sym_integrate(S=4):
     return "ok"
 
 
+def nat_integrate(params, model):
+    """native oracle (added after seed C18-3: counterexamples of this obligation had no replay)."""
+    import strax
+
+    S = params.get("S", 4)
+    specs = [dict(time=10 * r, length=model[f"len{r}"], channel=0, record_i=0, pulse_length=S, baseline=16000.0, dt=1,
+                  data=[model[f"x{r}_{q}"] for q in range(S)], shift=r) for r in range(2)]
+    recs = mk_records(specs, S, False)
+    strax.zero_out_of_bounds(recs)
+    want = [[specs[r]["data"][q] if q < specs[r]["length"] else 0 for q in range(S)] for r in range(2)]
+    got = [[int(v) for v in recs["data"][r]] for r in range(2)]
+    if got != want:
+        return {"ok": False, "detail": f"zero_out_of_bounds: {got} want {want}", "label": "zero_out_of_bounds:sample"}
+    strax.integrate(recs)
+    wa = [sum(want[r]) * 2 ** r for r in range(2)]
+    ga = [int(v) for v in recs["area"]]
+    return {"ok": ga == wa, "detail": f"area {ga} want {wa}", "label": None if ga == wa else "integrate:area is not the sum of in-bounds samples x 2^shift"}
+
+
 # ---------------------------------------------------------------------------- reduction around hits
 def _pulse_specs(nfrag, S, sym, model=None):
     specs = []
@@ -481,7 +500,7 @@ OBLIGATIONS = [
        doc="hits == maximal in-record runs >= threshold with time/length/area/height/max_time/record_i"),
     Ob("links", sym_links, lambda tier: [dict(n=n) for n in ((2, 3, 4) if tier == "quick" else (2, 3, 4))], nat_links,
        setup=_setup, witnesses=2, doc="record_links connects exactly the time-adjacent fragments of one channel"),
-    Ob("integrate", sym_integrate, lambda tier: [dict()], None, setup=_setup, witnesses=0),
+    Ob("integrate", sym_integrate, lambda tier: [dict()], nat_integrate, setup=_setup, witnesses=1),
     Ob("reduce", sym_reduce, lambda tier: [dict(nfrag=1), dict(nfrag=2)] + ([dict(nfrag=3)] if tier != "quick" else []),
        nat_reduce, setup=_setup, witnesses=3, max_paths=400000,
        doc="cut_outside_hits keeps exactly the samples within the extensions of hits (into adjacent fragments), zeroes "
